@@ -89,7 +89,7 @@ struct Ghost {
   vshim::Atomic<uint64_t> barrier{0};  // op B
   vshim::Atomic<uint64_t> release{0};  // op S: advanced by the quiescence hook
   int staying = 0;                     // threads inside op S
-  uint32_t waited_in_g[kMaxT];         // times thread t was put to wait inside GetThreadID / GetHeartBeat
+  bool in_lib[kMaxT];                  // thread t is inside GetThreadID / GetHeartBeat
   bool user_pinned[kMaxT];     // the heartbeat of thread t was pinned by a client: its expiry is the client's business
   int hb_id[kMaxT];            // id the heartbeat of thread t belongs to
   char results[kMaxT][24];
@@ -134,10 +134,10 @@ Body(int tid)
     vs::Boundary(h);
     if (op == "G") {
       const bool first = GH->id_of[tid] < 0;
-      const uint32_t b0 = vs::Stat(tid).blocked;
+      GH->in_lib[tid] = true;
       const size_t id = IDManager::GetThreadID();
       vs::NoSchedule ns;
-      GH->waited_in_g[tid] += vs::Stat(tid).blocked - b0;
+      GH->in_lib[tid] = false;
       if (id >= static_cast<size_t>(kCap)) {
         vs::Violate("C05", "ID-OUT-OF-RANGE", Fmt("T%d obtained id %zu, capacity is %d", tid, id, kCap));
       } else if (first) {
@@ -162,10 +162,10 @@ Body(int tid)
       }
       CheckLiveHeartbeats(tid, "at GetThreadID return");
     } else if (op == "H") {
-      const uint32_t b0 = vs::Stat(tid).blocked;
+      GH->in_lib[tid] = true;
       HB hb = IDManager::GetHeartBeat();
       vs::NoSchedule ns;
-      GH->waited_in_g[tid] += vs::Stat(tid).blocked - b0;
+      GH->in_lib[tid] = false;
       if (hb.RawExpired()) vs::Violate("C15", "HEARTBEAT-EXPIRED-EARLY", Fmt("T%d received an expired heartbeat", tid));
       GH->hbs[tid].hb = hb;
       GH->hbs[tid].owner = tid;
@@ -235,20 +235,6 @@ Body(int tid)
   }
   // body returns: the thread begins its exit cleanup
   vs::NoSchedule ns;
-  {
-    const int first_wave = PROG.wave2_from >= 0 ? PROG.wave2_from : static_cast<int>(PROG.th.size());
-    if (tid < first_wave && first_wave <= kCap && GH->waited_in_g[tid] != 0) {
-      vs::Violate("C14", "WAIT-WITH-FREE-ID",
-                  Fmt("T%d had to wait in GetThreadID although only %d thread(s) compete for %d IDs (a free ID always exists)", tid, first_wave, kCap));
-    }
-  }
-  if (tid >= PROG.wave2_from && PROG.wave2_from >= 0 && static_cast<int>(PROG.th.size()) - PROG.wave2_from <= kCap) {
-    // second wave: every id must have been free again, so nobody may have had to wait
-    if (GH->waited_in_g[tid] != 0) {
-      vs::Violate("C14", "ID-NOT-RETURNED",
-                  Fmt("after all earlier threads exited, T%d of a fresh wave of %d threads had to wait for an id", tid, kCap));
-    }
-  }
   GH->body_done[tid] = true;
   if (GH->id_of[tid] >= 0 && GH->holder[GH->id_of[tid]] == tid) GH->holder[GH->id_of[tid]] = -1;
 }
@@ -263,7 +249,7 @@ Setup()
   for (auto &i : GH->hb_id) i = -1;
   for (auto &r : GH->results) r[0] = 0;
   for (auto &b : GH->user_pinned) b = false;
-  for (auto &w : GH->waited_in_g) w = 0;
+  for (auto &w : GH->in_lib) w = false;
 }
 
 void
@@ -290,7 +276,7 @@ Digest()
   for (int t = 0; t < static_cast<int>(PROG.th.size()); ++t) {
     h = vs::Mix(h, static_cast<uint64_t>(GH->id_of[t] + 1) * 4 + (GH->body_done[t] ? 2 : 0) + (GH->hbs[t].used ? 1 : 0));
     if (GH->hbs[t].used) h = vs::Mix(h, GH->hbs[t].hb.RawExpired() ? 5 : 6);
-    h = vs::Mix(h, (GH->pins[t] ? 2 : 0) + (GH->user_pinned[t] ? 1 : 0) + 4 * static_cast<uint64_t>(GH->waited_in_g[t] != 0));
+    h = vs::Mix(h, (GH->pins[t] ? 2 : 0) + (GH->user_pinned[t] ? 1 : 0) + 4 * static_cast<uint64_t>(GH->in_lib[t]));
   }
   return h;
 }
@@ -325,7 +311,22 @@ MakeScenario()
   s.gated_from = PROG.wave2_from;
   s.deadlock_props = "C14";  // a GetThreadID call that never returns
   s.on_quiescent = []() -> bool {
+    // called when every unfinished thread is really waiting (it came back to the same wait after having been released
+    // with fresh counters and nobody has written anything): threads in op S, in a barrier, or inside the library
     if (!GH || GH->staying <= 0) return false;
+    // C14: as long as fewer than DBGROUP_MAX_THREAD_NUM threads hold IDs, a call that asks for an ID returns. A thread
+    // that is stuck inside GetThreadID / GetHeartBeat now, while the threads that hold IDs are fewer than the IDs and
+    // nothing else is going on, will not return until somebody exits: an ID has been lost or cannot be found.
+    int holders = 0, stuck = -1;
+    for (int t = 0; t < static_cast<int>(PROG.th.size()); ++t) {
+      if (GH->id_of[t] >= 0 && !GH->body_done[t]) ++holders;
+      if (GH->in_lib[t] && GH->id_of[t] < 0) stuck = t;
+    }
+    if (stuck >= 0 && holders < kCap) {
+      vs::Violate("C14", "STUCK-WITH-FREE-ID",
+                  Fmt("T%d does not return from GetThreadID/GetHeartBeat although only %d of %d IDs are held by running threads and every other thread is idle", stuck,
+                      holders, kCap));
+    }
     GH->release.RawStore(GH->release.Raw() + 1);
     return true;
   };
@@ -384,7 +385,7 @@ Family(const std::string &f)
         std::string p = wave(m, script);
         if (second_wave) {
           std::vector<int> w2(static_cast<size_t>(kCap), 0);
-          p += " || " + wave(w2, "G H G");
+          p += " || " + wave(w2, "G H G S");  // the second wave stays: an ID that did not come back leaves one of its threads stuck
         }
         out.push_back(p);
       }
@@ -400,7 +401,8 @@ Family(const std::string &f)
       for (int pos = 0; pos < kCap; ++pos) {
         std::vector<int> m(static_cast<size_t>(kCap), pos);
         out.push_back("s=" + std::to_string(salt) + ";" + wave(m, "G H P G"));
-        if (kCap <= 3) out.push_back("s=" + std::to_string(salt) + ";" + wave({pos}, "G P") + " || " + wave(m, "G H G"));
+        out.push_back("s=" + std::to_string(salt) + ";" + wave(m, "G H S"));  // holders stay: a thread that cannot find the free ID is stuck
+        if (kCap <= 3) out.push_back("s=" + std::to_string(salt) + ";" + wave({pos}, "G P") + " || " + wave(m, "G H G S"));
       }
   } else if (f == "over1") {
     gen(kCap + 1, kCap + 1, "G H P G", false);
@@ -446,8 +448,8 @@ Family(const std::string &f)
     // a client thread that never asks for an ID pins the heartbeat of an exiting thread for a while
     for (int pos = 0; pos < kCap; ++pos) {
       std::vector<int> w2(static_cast<size_t>(kCap), pos);
-      out.push_back("0:G H P | 0:P K0 P U || " + wave(w2, "G H G"));
-      out.push_back("0:H P | 0:P K0 P || " + wave(w2, "G H G"));
+      out.push_back("0:G H P | 0:P K0 P U || " + wave(w2, "G H G S"));
+      out.push_back("0:H P | 0:P K0 P || " + wave(w2, "G H G S"));
     }
   } else if (f == "big") {
     gen(kCap + 1, kCap + 1, "G H P G", true);
